@@ -126,7 +126,10 @@ func (r *c11run) checkPatch(p result.Patch, what string) (checked int) {
 		if w.Sys == "npm" {
 			key = updKey(u)
 		}
-		feat := features(w, []result.PackageUpdate{u})
+		feat := features(w, p.PackageUpdates, p.Fixed, p.Introduced)
+		if len(p.Fixed) == 0 {
+			feat = strings.TrimSuffix("fixes-nothing+"+feat, "+")
+		}
 		lvl := w.Opts.level(u.Name)
 		if lvl == "none" {
 			r.out.Violate("touched-none", fmt.Sprintf("touched-none:%s:%s:%s", w.Sys, what, feat), "%s patch %s changes %s although its upgrade level is none; %s", what, patchString(p), u.Name, r.ctx)
@@ -162,38 +165,48 @@ func (r *c11run) checkPatch(p result.Patch, what string) (checked int) {
 			continue
 		}
 		// Two readings of "the version it would resolve to without that change": without this
-		// package's change only (va), or without the patch (v0).  A violation must hold under both.
+		// package's change only (va: the rest of the patch applied), or without the patch (v0).
+		// A violation must hold under both.  A change that is a no-op given the rest of the patch
+		// (override pins a package another update already moves) is accepted as long as the
+		// patch as a whole moves the package upward: what exceeds a level then is the side effect
+		// of another update, which no level governs.
 		v0, va, vb := r.resolved(&w.Manifest)[key], r.resolved(&ma)[key], r.resolved(&mb)[key]
 		if vb == "" || (v0 == "" && va == "") {
 			r.out.Count("base_or_new_version_undefined", 1)
 			continue
 		}
-		checked++
-		upward, within := false, false
-		var bases []string
-		for _, base := range []string{va, v0} {
+		judge := func(base string) (upward, within, noop, ok bool) {
 			if base == "" {
-				continue
+				return false, false, false, false
 			}
 			c, diff, err := semverOf(w).Difference(base, vb)
 			if err != nil {
-				continue
+				return false, false, false, false
 			}
-			bases = append(bases, base)
-			if c < 0 {
-				upward = true
-				if allows(lvl, diff) {
-					within = true
-				}
-			}
+			return c < 0, c < 0 && allows(lvl, diff), c == 0, true
 		}
-		if len(bases) == 0 {
+		up1, in1, noop1, ok1 := judge(va)
+		up2, in2, _, ok2 := judge(v0)
+		if !ok1 && !ok2 {
 			r.out.Count("version_unparsable", 1)
 			continue
 		}
-		if !upward {
+		checked++
+		if !ok1 {
+			up1, in1, noop1 = up2, in2, false
+		}
+		if !ok2 {
+			up2, in2 = up1, in1
+		}
+		switch {
+		case noop1 && up2:
+			r.out.Count("redundant_pin_accepted", 1)
+		case !up1 && !up2:
+			if targetUpperBounded(w, u.Name) {
+				feat = strings.TrimSuffix("target-upper-bounded+"+feat, "+")
+			}
 			r.out.Violate("not-upward", fmt.Sprintf("not-upward:%s:%s:%s", w.Sys, what, feat), "%s patch %s: %s resolves to %s without the change (to %s without the patch) and to %s with it: not strictly upward; %s", what, patchString(p), u.Name, va, v0, vb, r.ctx)
-		} else if !within {
+		case !in1 && !in2:
 			r.out.Violate("level-exceeded", fmt.Sprintf("level-exceeded:%s:%s:%s:%s", w.Sys, what, lvl, feat), "%s patch %s: %s moves from %s (without the change; %s without the patch) to %s, more than its level %s allows; %s", what, patchString(p), u.Name, va, v0, vb, lvl, r.ctx)
 		}
 	}
@@ -341,7 +354,7 @@ func (r *c11run) checkApplied(changes []change) {
 			continue
 		}
 		r.out.Count("disk_changes_not_reported", 1)
-		feat := features(w, c.Related)
+		feat := features(w, append([]result.PackageUpdate{{Name: c.Name, VersionFrom: "0"}}, c.Related...))
 		where := fmt.Sprintf("requirement %s changed on disk from %q to %q, which no reported update says (related reported updates: %v)", c.Key, c.Old, c.New, updStrings(c.Related))
 		lvl := w.Opts.level(c.Name)
 		if lvl == "none" {
